@@ -80,6 +80,13 @@ type Scenario struct {
 	Steps  []Step  `json:"steps"`
 }
 
+// DeepBit marks the seeds of the thorough tier: a third of its runs use larger bounds (longer
+// histories, more sessions, more faults per run). It is part of the seed, so a (family, seed) pair
+// still names one scenario.
+const DeepBit = uint64(1) << 40
+
+func deepSeed(seed uint64) bool { return seed&DeepBit != 0 }
+
 // Strings that are not valid UTF-8 cannot pass through protojson (nor through
 // proto.Unmarshal); they are carried as a sentinel plus hex in the scenario file.
 const badUTF8Sentinel = "\u00a7BADUTF8:"
@@ -844,6 +851,9 @@ func genG1(seed uint64, prop string) *Scenario {
 	nsteps := 3 + g.pick(14)
 	if g.chance(1, 5) {
 		nsteps = 1 + g.pick(3) // many short runs
+	}
+	if deepSeed(seed) && g.chance(1, 3) {
+		nsteps = 20 + g.pick(40) // thorough tier: long histories (more turnover of the small key space, more hand-overs)
 	}
 	sess := 0
 	pFlush := g.pick(4)    // in 1/16ths
